@@ -162,12 +162,9 @@ def run(ck, facts, tier):
                 want_lsq = Sym("solve", vkey(Sym("matmul", vkey(at_), vkey(a_))), vkey(Sym("matvec", vkey(at_), vkey(b_))))
                 want_plain = Sym("solve", vkey(a_), vkey(b_))
                 sel = [v for c, v in ps if dict(c).get(vkey(Sym("bool", flag))) in (True, None) and (dict(c).get(vkey(Sym("bool", flag))) is not False)]
-                if flag == "true":
-                    pick = [v for c, v in ps if (vkey(Sym("bool", "true")), True) in c]
-                    ok = len(pick) == 1 and vkey(pick[0]) == vkey(want_lsq)
-                else:
-                    pick = [v for c, v in ps if (vkey(Sym("bool", "false")), False) in c]
-                    ok = len(pick) == 1 and vkey(pick[0]) == vkey(want_plain)
+                # the flag is a known constant: the evaluator takes the branch, leaving a single leaf
+                pick = [v for c, v in ps]
+                ok = len(pick) == 1 and vkey(pick[0]) == vkey(want_lsq if flag == "true" else want_plain)
                 ck.check(r3, key, ok, "with allow_lsq=%s the system solved is not %s" % (flag, "(A^T A, A^T b)" if flag == "true" else "(A, b)"), where,
                          detail=paths.fmt_paths(got)[:500], sample="solve(A^T A, A^T b)" if flag == "true" else "solve(A, b)")
             except Unsupported as e:
